@@ -320,7 +320,15 @@ func (r *runner) fillRows() {
 		n = 2
 	}
 	for i := 0; i < n; i++ {
-		r.colV.Append(uint64(r.ver*100 + i))
+		v := uint64(r.ver*100 + i)
+		if n >= 1000 {
+			// big blocks are made incompressible (splitmix64), so that their compressed frames are big too
+			z := uint64(r.ver)*1000003 + uint64(i) + 0x9e3779b97f4a7c15
+			z = (z ^ (z >> 30)) * 0xbf58476d1ce4e5b9
+			z = (z ^ (z >> 27)) * 0x94d049bb133111eb
+			v = z ^ (z >> 31)
+		}
+		r.colV.Append(v)
 		r.colS.Append(fmt.Sprintf("v%d-%d", r.ver, i))
 	}
 }
